@@ -277,8 +277,17 @@ func loadRulesMetadata() *config.Metadata {
 }
 
 func ConvertConfig(tmplData *configTemplateData, w io.Writer) {
+	// Cleaning deprecated options out of a file and dumping the rest only
+	// makes sense for a file that already is a v2 config. A v1 file has to go
+	// through the template, which simply does not render removed settings.
+	isV2 := false
+	if general, ok := tmplData.Data["General"].(map[string]any); ok {
+		_, isV2 = general["ConfigurationVersion"]
+	}
 	var removedItems []string
-	tmplData.Data, removedItems = removeDeprecated(tmplData.Data)
+	if isV2 {
+		tmplData.Data, removedItems = removeDeprecated(tmplData.Data)
+	}
 
 	if len(removedItems) > 0 {
 		fmt.Fprintf(w, "# The following deprecated config options were removed:\n")
